@@ -1,4 +1,10 @@
+def _loom(tier, seed):
+    import importlib.util, os
+    sp = importlib.util.spec_from_file_location('c04', os.path.join(os.path.dirname(__file__), 'c04.py')); m = importlib.util.module_from_spec(sp); sp.loader.exec_module(m)
+    return m.loom_suite(tier, seed, only='sharing_', expected='a clone made while other threads clone or drop shares the buffer (no copy, no allocation)')
+
 SPEC = {
+    "custom": _loom,
  "id": "C07",
  "level": "proof",
  "props": [
